@@ -44,9 +44,10 @@ def model_stage(tier, seed, mc=True, focus="cold", pre_tests=False):
         if mc:
             cfg = "MC_YK_intended.cfg" if tier == "quick" else "MC_YK_intended11.cfg"
             res.update(states=0, transitions=0, model_cfg="")
-            warm_cfgs = {"warm": ("MC_YK_warm.cfg", "MC_YK_warm2.cfg"), "resv": ("MC_YK_full.cfg",), "pre": ("MC_YK_pre.cfg", "MC_YK_pre2.cfg"), "cold": ()}
+            warm_cfgs = {"warm": ("MC_YK_warm.cfg", "MC_YK_warm2.cfg"), "resv": ("MC_YK_full.cfg",), "pre": ("MC_YK_pre.cfg", "MC_YK_pre2.cfg"), "cold": (),
+                         "restart": ("MC_YK_warm2_rs.cfg", "MC_YK_pre2_rs.cfg", "MC_YK_full_rs.cfg")}
             # quick: the cold model and the start states the property is about; thorough: all of them
-            cfgs = (cfg,) + (warm_cfgs[focus] if tier == "quick" else ("MC_YK_warm.cfg", "MC_YK_warm2.cfg", "MC_YK_full.cfg", "MC_YK_pre.cfg", "MC_YK_pre2.cfg"))
+            cfgs = (cfg,) + (warm_cfgs[focus] if tier == "quick" else ("MC_YK_warm.cfg", "MC_YK_warm2.cfg", "MC_YK_full.cfg", "MC_YK_pre.cfg", "MC_YK_pre2.cfg", "MC_YK_warm2_rs.cfg", "MC_YK_pre2_rs.cfg", "MC_YK_full_rs.cfg"))
             for c in cfgs:
                 r = G.model_check(work, c, workers=min(C.NCPU, 12))
                 if not r["ok"]:
@@ -85,19 +86,30 @@ def model_stage(tier, seed, mc=True, focus="cold", pre_tests=False):
             p4 = take(p4, (2500 if pre else 300) if quick else 12000)
         if pre:   # the other families only as a smoke test
             cold, w2, w1, f3, f4, ss = cold[:150], w2[:100], w1[:50], f3[:100], [], ss[:50]
-        allt = cold + w2 + w1 + f3 + f4 + ss
+        # the core restarts at any point around a swap, a preemption in flight, a reservation: only histories with a restart
+        r_mc, r_pre = [], []
+        if focus == "restart" or not quick:
+            def with_restart(ts):
+                return [t for t in ts if any(o.get("op") == "restart" for o in t)]
+            d = 3 if quick else 4
+            r_mc = take(with_restart(G.state_cover_tests(work, d, warm=6)[0]), 1200 if quick else 8000) + \
+                take(with_restart(G.state_cover_tests(work, d, warm=8)[0]), 800 if quick else 8000)
+            r_pre = take(with_restart(G.state_cover_tests(work, d, warm=7)[0]), 800 if quick else 8000)
+            if focus == "restart":
+                cold, w2, w1, f3, f4, ss, p3, p4 = cold[:100], w2[:50], [], f3[:50], [], ss[:50], [], []
+        allt = cold + w2 + w1 + f3 + f4 + ss + r_mc
         n = 6 if quick else 12
         for i in range(n):
             f = os.path.join(work, "gen-ops-%d.ndjson" % i)
             G.write_ops(allt[i::n], f)
             res["ops_files"].append(f)
-        allp = p3 + p4
+        allp = p3 + p4 + r_pre
         np_ = ((4 if pre else 1) if quick else 8) if allp else 0
         for i in range(np_):
             f = os.path.join(work, "gen-ops-pre-%d.ndjson" % i)
             G.write_ops(allp[i::np_], f, conf="mcpre")
             res["ops_files"].append(f)
-        res.update(tests_bounded=len(cold), tests_warm=len(w1) + len(w2) + len(f3) + len(f4) + len(allp), tests_preemption=len(allp), tests_simulated=len(ss))
+        res.update(tests_bounded=len(cold), tests_warm=len(w1) + len(w2) + len(f3) + len(f4) + len(allp), tests_preemption=len(allp), tests_restart=len(r_mc) + len(r_pre), tests_simulated=len(ss))
         return res
     return gen
 
@@ -115,7 +127,7 @@ PREFIXES = {"C13": ["C13_", "C03_", "C01_NodeLedger", "C09_Views", "C05_UserUsag
             # C12: "... and scheduling afterwards still respects the capacity, quota and accounting properties"
             "C12": ["C12_", "C01_NodeLedger", "C01_Step", "C01_AvailNonNeg", "C02_Step", "C03_", "C05_Step", "C05_UserUsage", "C05_GroupUsage"]}
 SECOND_PART = {"C05": "ugmlimits"}   # the user/group manager as a deterministic state machine (spec/UGM.tla, lock-step)
-MODEL_PROPS = {"C01", "C02", "C03", "C04", "C06", "C07", "C08", "C09", "C10"}   # properties the generative model speaks about
+MODEL_PROPS = {"C01", "C02", "C03", "C04", "C06", "C07", "C08", "C09", "C10", "C12"}   # properties the generative model speaks about
 WARM_FOCUS = {"C03", "C04", "C06", "C10"}   # of those, the ones about what happens around a placeholder swap
 RESV_FOCUS = {"C01", "C02", "C09"}   # ... and the ones about full nodes, head room and reservations
 PRE_FOCUS = {"C07", "C08"}           # ... and queue preemption
@@ -140,7 +152,7 @@ def main(argv):
             return
         C.build()
         kf_all = C.known_findings()
-        res = T.run(prop, PREFIXES.get(prop, [prop + "_"]), runs_for(prop, tier), tier, seed, kf_all, NEED[prop], gen=model_stage(tier, seed, focus="warm" if prop in WARM_FOCUS else "resv" if prop in RESV_FOCUS else "pre" if prop in PRE_FOCUS else "cold", pre_tests=prop == "C03") if prop in MODEL_PROPS else None)
+        res = T.run(prop, PREFIXES.get(prop, [prop + "_"]), runs_for(prop, tier), tier, seed, kf_all, NEED[prop], gen=model_stage(tier, seed, focus="warm" if prop in WARM_FOCUS else "resv" if prop in RESV_FOCUS else "pre" if prop in PRE_FOCUS else "restart" if prop == "C12" else "cold", pre_tests=prop == "C03") if prop in MODEL_PROPS else None)
         # a crash of the core process is a violation for the properties that speak about it, otherwise not a verdict
         crash_infra = None
         for msg, rp in res["crashes"]:
@@ -166,7 +178,7 @@ def main(argv):
             m = res["model"]
             level = "model_checking"
             cov.update(states=m["states"], transitions=m["transitions"], model=m["model_cfg"], model_exhaustive_within_bounds=True,
-                       tests_generated_bounded=m["tests_bounded"], tests_generated_warm=m["tests_warm"], tests_generated_simulated=m["tests_simulated"],
+                       tests_generated_bounded=m["tests_bounded"], tests_generated_warm=m["tests_warm"], tests_generated_preemption=m.get("tests_preemption", 0), tests_generated_restart=m.get("tests_restart", 0), tests_generated_simulated=m["tests_simulated"],
                        explanation="states/transitions: exhaustive TLC run of spec/YuniKorn.tla (intended behaviour) under %s, all design invariants hold; its environment histories were replayed on the real core and every step validated" % m["model_cfg"])
             assumptions.append("the generative model is exhaustive only within the constants of its MC_YK configuration")
         C.write_evidence(prop, tier, seed, level, cov, time.time() - t0, len(res["violations"]), assumptions)
